@@ -1377,8 +1377,8 @@ def renderBlk (env : Env) : Nat → Blk → St → Res (List Piece) × St
          (match findHandler env handlers ex.cls with
           | none => (.raise ex, st1)
           | some h =>
-            -- the message texts CPython gives its own errors are outside the model
-            let internal := ["TypeError", "AttributeError", "NameError", "IndexError", "UnicodeDecodeError"].map String.toList
+            -- the message texts CPython gives its own errors (and AccessControl its Unauthorized: args with a traceback object) are outside the model
+            let internal := ["TypeError", "AttributeError", "NameError", "IndexError", "UnicodeDecodeError", "Unauthorized"].map String.toList
             let msg := if internal.contains ex.cls then [Char.ofNat 0xFFFF] else ex.msg
             let ns : Val := .obj 0 [("error_type".toList, .str ex.cls), ("error_value".toList, .exc ex.cls msg),
                                    ("error_tb".toList, .str "traceback".toList)]
